@@ -280,11 +280,23 @@ def rule_music(ctx, res, sizes):
                      ('self._data', k, 6), Z])
         want.append([('self._data', k, b) for b in range(4)])
     want.append(('lit', b'\n'))
-    res.check(w['line'] == want and w['step'] == 4 and
+    badp = [(a, l) for (a, l) in w['lines'] if l != want]
+    why = ''
+    if badp:
+        a, l = badp[0]
+        k = next((i for i, (x, y) in enumerate(zip(l, want)) if x != y),
+                 min(len(l), len(want)))
+        why = 'music line {}carries {} at digit {} where the RAM layout ' \
+              'has {}'.format(
+                  'on the path [{}] '.format(', '.join(
+                      '{} is {}'.format(t, v) for (t, v) in a)) if a else '',
+                  l[k] if k < len(l) else 'nothing', k,
+                  want[k] if k < len(want) else 'nothing')
+    res.check(not badp and w['step'] == 4 and
               sizes.get('music') == 4 * ref.MUSIC_PATTERNS, 'R-C16-music',
               f.qual, 'line = flags byte, space, 4 channel bytes (low 7 '
-              'bits); flag bit k = bit 7 of RAM byte k', '',
-              'music line carries {}'.format(w['line'][:3]), f.loc)
+              'bits); flag bit k = bit 7 of RAM byte k',
+              '{} path(s)'.format(len(w['lines'])), why, f.loc)
     r = codecs.music_reader_layout(ctx)
     g = r['func']
     ok = r['sep'] == b' ' and r['filter'] and len(r['bytes']) == 4
